@@ -192,7 +192,7 @@ fn check_roff(input: &[u8], doc: &str) -> Result<(), Viol> {
                 _ => {
                     return Err((
                         "unexpected-request",
-                        format!("control line `.{name} {}` is not one of the colour requests (document {doc:?})", args.join(" ")),
+                        format!("the document contains a control line with request {name:?} {args:?}, which is not one of the colour requests (document {doc:?})"),
                     ))
                 }
             }
@@ -387,9 +387,15 @@ fn main_check(ctx: &Ctx) -> Outcome {
     let mut v = acc.viol.into_inner().unwrap();
     v.sort_by_key(order_key);
     let total_v = v.len();
-    v.truncate(200);
-    out.findings.extend(v);
-    out.set("violating_cases_not_listed_individually", json!(total_v.saturating_sub(200)));
+    let mut kept: Vec<Finding> = vec![];
+    for f in v {
+        // at most 25 (shortest) cases are listed per violated clause, the rest is counted
+        if kept.len() < 200 && kept.iter().filter(|k| k.clause == f.clause).count() < 25 {
+            kept.push(f);
+        }
+    }
+    out.set("violating_cases_not_listed_individually", json!(total_v - kept.len()));
+    out.findings.extend(kept);
     let cc = acc.clause_counts.into_inner().unwrap();
     out.set("violations_by_clause", json!(cc.iter().map(|(k, v)| (k.to_string(), *v)).collect::<HashMap<String, u64>>()));
     out.set("evaluations", json!(acc.evals.load(Ordering::Relaxed)));
